@@ -70,10 +70,10 @@ Inductive ekind :=
 | EFuncIntoStar          (* cannot read function call %q into asterisk *)
 | EStarInput             (* invalid asterisk placement in input %q *)
 | EMissingParensValues   (* missing parentheses around types after "VALUES" *)
-| EInternalStar          (* internal error: cannot have asterisk accessor ... (no position) *)
 | EFuel.                 (* model only: a loop ran out of fuel *)
 
-(* [positioned = false] for the one error the Go does not wrap in errorAt. *)
+(* [positioned = false] only for the model's own out-of-fuel error: every error of the Go parser is
+   wrapped in errorAt (since fix F15). *)
 Record perr := { eline : nat; ecol : nat; ekind_of : ekind; epayload : str; positioned : bool }.
 
 Inductive res (A : Type) :=
@@ -687,8 +687,8 @@ Fixpoint basicvals_loop (fuel : nat) (cp : pstate) (inputParsed : bool) (acc : l
       | (st2, Err e) => (st2, Err e)
       | (st2, Ok ma) =>
           if is_star_macc ma
-          then (st2, Err {| eline := 0; ecol := 0; ekind_of := EInternalStar;
-                            epayload := []; positioned := false |})
+          then (st2, Err (errorAt EStarInput ([ch_dollar] ++ macc_string ma)
+                                  (line itemStart) (colNum itemStart)))
           else continue_ true (acc ++ [VMem ma]) st2
       | (st2, No) =>
           match skipLiteralInList st2 with
